@@ -8,6 +8,9 @@ import (
 	"debug/elf"
 	"encoding/binary"
 	"fmt"
+	"github.com/google/pprof/internal/symbolizer"
+	"github.com/google/pprof/profile"
+	"github.com/google/pprof/verif/internal/drv"
 	"math/rand"
 	"os"
 	"os/exec"
@@ -579,6 +582,12 @@ func runReal(c *harness.Ctx) harness.Result {
 				continue
 			}
 		}
+		// the same through the real driver: pprof -symbolize=local -proto on a profile whose
+		// samples sit at bias + symbol address (+ offset) inside the mapping of this binary
+		if msg := driverSymbolize(c, bin, ef, syms, bias); msg != "" {
+			res.Verdict, res.Detail = harness.Violated, fmt.Sprintf("%v bias=%#x: %s", v, bias, msg)
+			return res
+		}
 		if ef.Type == elf.ET_EXEC {
 			break
 		}
@@ -586,11 +595,71 @@ func runReal(c *harness.Ctx) harness.Result {
 	return res
 }
 
+func driverSymbolize(c *harness.Ctx, bin string, ef *elf.File, syms []elf.Symbol, bias uint64) string {
+	p := &profile.Profile{SampleType: []*profile.ValueType{{Type: "samples", Unit: "count"}}, PeriodType: &profile.ValueType{Type: "cpu", Unit: "nanoseconds"}, Period: 1}
+	for _, ph := range ef.Progs {
+		if ph.Type != elf.PT_LOAD || ph.Flags&elf.PF_X == 0 {
+			continue
+		}
+		p.Mapping = append(p.Mapping, &profile.Mapping{ID: uint64(len(p.Mapping) + 1), Start: bias + (ph.Vaddr &^ (pg - 1)), Limit: bias + ((ph.Vaddr + ph.Filesz + pg - 1) &^ (pg - 1)), Offset: ph.Off &^ (pg - 1), File: bin})
+	}
+	want := map[uint64]string{}
+	for _, s := range syms {
+		if elf.ST_TYPE(s.Info) != elf.STT_FUNC || (s.Name != "alpha" && s.Name != "beta" && s.Name != "main") || s.Size == 0 {
+			continue
+		}
+		for _, d := range []uint64{0, 1, s.Size - 1} {
+			addr := bias + s.Value + d
+			for _, m := range p.Mapping {
+				if addr >= m.Start && addr < m.Limit {
+					l := &profile.Location{ID: uint64(len(p.Location) + 1), Mapping: m, Address: addr}
+					p.Location = append(p.Location, l)
+					p.Sample = append(p.Sample, &profile.Sample{Value: []int64{1}, Location: []*profile.Location{l}})
+					want[l.ID] = s.Name
+				}
+			}
+		}
+	}
+	if len(want) == 0 {
+		return ""
+	}
+	drv.IsolateEnv(c.Tmp)
+	bu := &binutils.Binutils{}
+	ui := &drv.UI{}
+	sesn := &drv.Session{Flags: &drv.Flags{Bools: map[string]bool{"proto": true, "addresses": true, "flat": true}, Strs: map[string]string{"output": "out", "symbolize": "local"}, Args: []string{"p"}},
+		Fetch: &drv.MapFetcher{Profiles: map[string]*profile.Profile{"p": p}}, Obj: bu, Sym: &symbolizer.Symbolizer{Obj: bu, UI: ui}, UI: ui}
+	rr := sesn.Run()
+	c.Stat("driver_symbolizations", 1)
+	if rr.Panic != "" || rr.Err != nil {
+		return fmt.Sprintf("pprof -symbolize=local -proto failed: %v %s %v", rr.Err, rr.Panic, ui.Errs)
+	}
+	q, err := profile.ParseData(sesn.Writer.Files["out"].Bytes())
+	if err != nil {
+		return "saved profile unparseable: " + err.Error()
+	}
+	// a leaf sample address is looked up as is; names are compared per location id
+	for _, l := range q.Location {
+		w, ok := want[l.ID]
+		if !ok {
+			continue
+		}
+		got := ""
+		if n := len(l.Line); n > 0 && l.Line[n-1].Function != nil {
+			got = l.Line[n-1].Function.Name
+		}
+		if got != w {
+			return fmt.Sprintf("pprof -symbolize=local names the sample at %#x (link-time %#x) %q (%d lines); the symbol table says it lies in %s (ui: %v)", l.Address, l.Address-bias, got, len(l.Line), w, ui.Errs)
+		}
+		c.Stat("driver_symbolized_locations", 1)
+	}
+	return ""
+}
+
 func init() {
 	harness.Register(&harness.Check{
 		ID:          "C13",
 		Level:       "exploration",
-		Rule:        "part synth: ELF64 files (header + program headers) generated under linker constraints (1-4 PT_LOAD sorted by vaddr, off = vaddr mod page, non-zero first vaddr, bss, neighbours packed onto one file page or on separate pages, 4 KiB or 2 MiB alignment, ET_DYN/ET_EXEC), loader simulation at a random page-aligned bias, segments optionally padded to a page boundary, the executable mapping whole, split in two, or with its tail (from any page on) merged with the mapping of the following segment as adjacent same-file mappings are reported; addresses at segment start, end-1, interior; result must be address - bias, an error only counts in the unambiguous class, a wrong address always counts; further addresses through the same object file. part protocol: an interposed llvm-symbolizer echoes the address it is sent: it must be the link-time address; alternately an interposed GNU addr2line (echoing its question) plus an interposed nm table (one long-named symbol per 64 bytes) at high and at low biases: the reported name must be the one either tool gives for the link-time address. part nm: generated sorted symbol tables (duplicates, zero sizes, adjacent, text/data types, junk lines) behind an interposed nm, probed at start-1, start, start+1, end-1, end of every symbol and outside the table. part real: the same C program built with gcc/clang as -pie, -no-pie, noseparate-code, max-page-size=2MiB, -Ttext-segment; loader-simulated from its real headers at three biases; ObjAddr exact and SourceLine (llvm-symbolizer and nm) names the function whose symbol-table range contains the address. non-trivial = every case; distinct = layout + bias",
+		Rule:        "part synth: ELF64 files (header + program headers) generated under linker constraints (1-4 PT_LOAD sorted by vaddr, off = vaddr mod page, non-zero first vaddr, bss, neighbours packed onto one file page or on separate pages, 4 KiB or 2 MiB alignment, ET_DYN/ET_EXEC), loader simulation at a random page-aligned bias, segments optionally padded to a page boundary, the executable mapping whole, split in two, or with its tail (from any page on) merged with the mapping of the following segment as adjacent same-file mappings are reported; addresses at segment start, end-1, interior; result must be address - bias, an error only counts in the unambiguous class, a wrong address always counts; further addresses through the same object file. part protocol: an interposed llvm-symbolizer echoes the address it is sent: it must be the link-time address; alternately an interposed GNU addr2line (echoing its question) plus an interposed nm table (one long-named symbol per 64 bytes) at high and at low biases: the reported name must be the one either tool gives for the link-time address. part nm: generated sorted symbol tables (duplicates, zero sizes, adjacent, text/data types, junk lines) behind an interposed nm, probed at start-1, start, start+1, end-1, end of every symbol and outside the table. part real: the same C program built with gcc/clang as -pie, -no-pie, noseparate-code, max-page-size=2MiB, -Ttext-segment; loader-simulated from its real headers at three biases; ObjAddr exact and SourceLine (llvm-symbolizer and nm) names the function whose symbol-table range contains the address; and a profile with samples at those runtime addresses run through the real driver (pprof -symbolize=local -proto) must come back with those function names. non-trivial = every case; distinct = layout + bias",
 		Assumptions: []string{"page size 4 KiB", "unambiguous class = the address lies in the file-backed part of exactly one PT_LOAD and no other segment has file content on the same page, mapping not split, and (merged mappings) the mapping holds at least one full page of the executable segment; pprof attributes a merged mapping holding less than a page of a segment to the next segment by design and answers with an error", "layouts are those the generator and the installed compilers produce"},
 		Parts: []harness.Part{
 			{Name: "synth", Quick: 6000, Thor: 300000, Run: runSynth},
